@@ -214,3 +214,187 @@ def replay(repo, fns, workdir, log, binary=None):
             fails.append({"goal": "X is " + exprs[i], "got": list(got), "expected": list(map(str, o)), "op": op, "a": a, "b": b})
     log.append("replayed %d candidate goals, %d disagree with the exact oracle" % (len(todo), len(fails)))
     return fails
+
+
+# ---------------------------------------------------------------- float / mixed evaluation (C02) and comparison (C04)
+
+def pl_float(f):
+    s = repr(float(f))
+    if "e" in s or "E" in s:
+        m, e = s.lower().split("e")
+        if "." not in m:
+            m += ".0"
+        s = m + "e" + str(int(e))
+    elif "." not in s:
+        s += ".0"
+    return "(%s)" % s if f < 0 or (f == 0 and math.copysign(1, f) < 0) else s
+
+
+def pl_num(x):
+    if isinstance(x, float):
+        return pl_float(x)
+    if isinstance(x, Fraction):
+        return "(%s rdiv %s)" % (pl_int(x.numerator), pl_int(x.denominator))
+    return pl_int(x)
+
+
+def to_f(x):
+    try:
+        return float(x)
+    except OverflowError:
+        return math.inf if x > 0 else -math.inf
+
+
+def classify(z):
+    if math.isnan(z): return ("e", "undefined")
+    if math.isinf(z): return ("e", "float_overflow")
+    return ("v", z)
+
+
+FMIX = [0, 1, -1, 3, -7, 2**53, 2**53 + 1, -(2**53) - 1, 2**55, -2**55, 2**63, 2**64 + 1, 2**100, 10**400, -10**400,
+        0.0, -0.0, 1.0, -1.0, 0.5, -1.5, 2.5, 1e308, -1e308, 5e-324, 2.0**53, 2.0**55, 36028797018963967.0, -36028797018963968.0, 1.7976931348623157e308,
+        Fraction(1, 3), Fraction(-7, 2), Fraction(2**70 + 1, 2)]
+
+
+def oracle_float(op, a, b=None):
+    def conv(x):
+        return ("v", x) if isinstance(x, float) else classify(to_f(x))
+    try:
+        if op in ("/", "+", "*", "-", "**", "atan2"):
+            if op in ("+", "*", "-") and not (isinstance(a, float) or isinstance(b, float)):
+                return ("skip", None)
+            if op == "/" and ((b == 0) if not isinstance(b, float) else (b == 0.0)):
+                return ("e", "zero_divisor")
+            ca = conv(a)
+            if ca[0] == "e": return ca
+            cb = conv(b)
+            if cb[0] == "e": return cb
+            x, y = ca[1], cb[1]
+            if op == "/": return classify(x / y) if y != 0 else ("e", "zero_divisor")
+            if op == "+": return classify(x + y)
+            if op == "-": return classify(x - y)
+            if op == "*": return classify(x * y)
+            return ("skip", None)
+        if op == "float":
+            return classify(to_f(a))
+        if op == "sqrt":
+            neg = (a < 0)
+            if neg: return ("e", "undefined")
+            c = classify(to_f(a))
+            return c if c[0] == "e" else classify(math.sqrt(c[1]))
+        if op in ("floor", "ceiling", "truncate", "round"):
+            if isinstance(a, float):
+                if op == "floor": return ("i", math.floor(a))
+                if op == "ceiling": return ("i", math.ceil(a))
+                if op == "truncate": return ("i", math.trunc(a))
+                r = math.floor(abs(a) + 0.5) if abs(a) < 2**52 else abs(a)
+                return ("i", int(math.copysign(r, a)))
+            if isinstance(a, Fraction):
+                if op == "floor": return ("i", math.floor(a))
+                if op == "ceiling": return ("i", math.ceil(a))
+                if op == "truncate": return ("i", math.trunc(a))
+                return ("skip", None)
+            return ("i", a)
+    except (OverflowError, ValueError, ZeroDivisionError):
+        return ("skip", None)
+    return ("skip", None)
+
+
+FLOAT_FN_OPS = {
+    "Number_div": ["/"], "div": ["/"], "add": ["+"], "mul": ["*"], "neg": ["-"], "float": ["float"], "sqrt": ["sqrt"],
+    "floor": ["floor", "ceiling", "truncate"], "ceiling": ["ceiling"], "truncate": ["truncate"], "round": ["round"],
+    "unary_float_fn_template": ["sqrt", "float"], "Number_is_zero": ["/"], "Number_is_negative": ["sqrt", "truncate"],
+    "zero_divisor_eval_error": ["/"], "undefined_eval_error": ["sqrt"],
+    # Kani float kernels
+    "classify_float_spec": ["/", "+", "*", "float"], "add_f_spec": ["+"], "mul_f_spec": ["*"], "div_f_spec": ["/"], "float_fn_to_f_spec": ["float", "+"],
+    "rnd_i_float": ["floor", "ceiling", "truncate", "round"], "rnd_i_nonfinite": ["floor"], "number_float_predicates": ["/", "sqrt", "truncate"],
+}
+
+
+def replay_float(repo, fns, workdir, log, binary=None):
+    binary = binary or build_binary(repo, log)
+    if binary is None:
+        return None
+    ops = []
+    for fn in fns:
+        for o in FLOAT_FN_OPS.get(fn, []):
+            if o not in ops:
+                ops.append(o)
+    todo = []
+    for op in ops:
+        if op in ("/", "+", "*", "-"):
+            for a in FMIX:
+                for b in FMIX:
+                    o = oracle_float(op, a, b)
+                    if o[0] != "skip":
+                        todo.append(("%s %s %s" % (pl_num(a), op, pl_num(b)), o))
+        else:
+            for a in FMIX + FL:
+                o = oracle_float(op, a)
+                if o[0] != "skip":
+                    todo.append(("%s(%s)" % (op, pl_num(a)), o))
+    out = run_goals(binary, [e for e, _ in todo], workdir, log)
+    fails = []
+    for i, (e, o) in enumerate(todo):
+        got = out.get(i)
+        if got is None:
+            continue
+        ok = False
+        if got[0] == "crash":
+            ok = False
+        elif o[0] == "v" and got[0] == "v":
+            try:
+                g = float(got[1])
+                # the sign of a zero result is not compared: the printer shows -0.0 as 0.0
+                ok = (g == o[1]) and ("." in got[1] or "e" in got[1].lower() or "inf" in got[1].lower())
+            except ValueError:
+                ok = False
+        elif o[0] == "i" and got[0] == "v":
+            ok = got[1].strip() == str(o[1])
+        elif o[0] == "e" and got[0] == "e":
+            parts = got[1].split()
+            ok = parts[0] == "evaluation_error" and parts[1] == o[1]
+        if not ok:
+            fails.append({"goal": "X is " + e, "got": list(got), "expected": [o[0], repr(o[1])], "op": e, "a": None, "b": None})
+    log.append("replayed %d float/mixed goals, %d disagree with the IEEE oracle" % (len(todo), len(fails)))
+    return fails
+
+
+CMP_HEAD = """:- use_module(library(format)).
+t(I, G) :- catch((call(G) -> R = true ; R = false), error(E, _), R = err(E)), format("~d v ~q~n", [I, R]).
+main :- g(I, E), t(I, E), fail.
+main :- halt.
+:- initialization(main).
+"""
+
+
+def replay_cmp(repo, fns, workdir, log, binary=None):
+    binary = binary or build_binary(repo, log)
+    if binary is None:
+        return None
+    vals = [v for v in FMIX if not (isinstance(v, int) and abs(v) > 2**200)] + [2**55 - 1, -2**55 - 1, 2**62, 9007199254740993]
+    todo = []
+    for a in vals:
+        for b in vals:
+            if isinstance(a, float) or isinstance(b, float):
+                x, y = (a if isinstance(a, float) else to_f(a)), (b if isinstance(b, float) else to_f(b))
+            else:
+                x, y = Fraction(a), Fraction(b)
+            for op, fnc in (("=:=", lambda p, q: p == q), ("=\\=", lambda p, q: p != q), ("<", lambda p, q: p < q), ("=<", lambda p, q: p <= q), (">", lambda p, q: p > q), (">=", lambda p, q: p >= q)):
+                todo.append(("%s %s %s" % (pl_num(a), op, pl_num(b)), fnc(x, y)))
+    global PL_HEAD
+    saved = PL_HEAD
+    PL_HEAD = CMP_HEAD
+    try:
+        out = run_goals(binary, [e for e, _ in todo], workdir, log)
+    finally:
+        PL_HEAD = saved
+    fails = []
+    for i, (e, o) in enumerate(todo):
+        got = out.get(i)
+        if got is None:
+            continue
+        if not (got[0] == "v" and got[1].strip() == ("true" if o else "false")):
+            fails.append({"goal": e, "got": list(got), "expected": ["v", "true" if o else "false"], "op": "cmp", "a": None, "b": None})
+    log.append("replayed %d comparison goals, %d disagree with the exact/IEEE oracle" % (len(todo), len(fails)))
+    return fails
